@@ -1,14 +1,32 @@
 #!/bin/bash
-# MANIFEST.setup_cmd: build every library variant and every worker from /repo's current tree, offline.
+# MANIFEST.setup_cmd: build every library variant, worker and harness from /repo's current tree, offline.
+# (Checks rebuild incrementally on their own; this only pays the cold cost once.)
 cd "$(dirname "$0")"
-set -e
 mkdir -p evidence replays
 # variants are independent: build them concurrently (ninja shares the 16 cores)
 python3 lib/build.py rel &
 python3 lib/build.py asan &
+python3 lib/build.py st &
 wait
-python3 lib/build.py stp st &
-python3 lib/build.py tsan fz &
+python3 lib/build.py stp &
+python3 lib/build.py fz &
 wait
-python3 lib/workers.py rel asan tsan
+python3 lib/workers.py rel asan || exit 1
+python3-vt - <<'PY' || exit 1
+import sys, os
+sys.path.insert(0, 'lib'); sys.path.insert(0, '.')
+import importlib
+for m in ('c07', 'c10', 'c22', 'c23', 'c24', 'c25'):
+    mod = importlib.import_module('props.' + m)
+    try:
+        if m == 'c10':
+            import harness; harness.build_fuzz('fz_dec', ['fuzz/fz_dec.cc'])
+        elif m == 'c22':
+            import harness; harness.build('reldist', 'stp', ['reldist.c'])
+        else:
+            mod.prepare('quick')
+        print('harness ok', m)
+    except Exception as e:
+        print('harness FAILED', m, e); sys.exit(1)
+PY
 echo setup-done
